@@ -34,7 +34,10 @@ pub enum Backend {
 
 const SIZES: [u64; 18] = [0, 1, 7, 8, 9, 15, 16, 17, 23, 24, 31, 32, 33, 40, 48, 64, 100, 200];
 
-fn size(rng: &mut Rng) -> u64 {
+fn size(rng: &mut Rng, big: bool) -> u64 {
+    if big && rng.chance(1, 6) {
+        return rng.range(4090, 9000);
+    }
     if rng.chance(1, 12) { rng.range(0, 400) } else { *rng.pick(&SIZES) }
 }
 
@@ -42,6 +45,10 @@ fn payload(rng: &mut Rng, n: u64, tag: &mut u8) -> Vec<u8> {
     *tag = tag.wrapping_add(1);
     if *tag == 0 {
         *tag = 1;
+    }
+    if rng.chance(1, 10) {
+        // zero-filled payloads are ordinary input too
+        return vec![0u8; n as usize];
     }
     let mut v = vec![*tag; n as usize];
     // a few random bytes so equal-tag regions still differ
@@ -68,6 +75,9 @@ pub fn generate(rng: &mut Rng, cfg: &GenCfg) -> Vec<SOp> {
     // operations are generated (mutating a removed index is outside the properties'
     // quantifier; the executor additionally skips anything its model deems invalid).
     let mut sizes: Vec<Option<u64>> = Vec::new();
+    // swarm knob: one program in six also uses values larger than a page (and is then kept short)
+    let big = rng.chance(1, 6);
+    let n = if big { n.min(60) } else { n };
     let w_insert = rng.range(10, 30);
     let w_remove = rng.range(4, 20);
     let w_txn = if cfg.transactions { rng.range(0, 10) } else { 0 };
@@ -91,12 +101,12 @@ pub fn generate(rng: &mut Rng, cfg: &GenCfg) -> Vec<SOp> {
         let slot = slot_i as u64;
         match rng.weighted(&w) {
             0 => {
-                let s = size(rng);
+                let s = size(rng, big);
                 ops.push(SOp::Insert { bytes: payload(rng, s, &mut tag) });
                 sizes.push(Some(s));
             }
             1 => {
-                let s = size(rng).min(64);
+                let s = if big && rng.chance(1, 3) { size(rng, big) } else { size(rng, big).min(64) };
                 let cur = sizes[slot_i].unwrap();
                 let offset = match rng.below(6) {
                     0 => rng.range(0, 300),
@@ -114,7 +124,7 @@ pub fn generate(rng: &mut Rng, cfg: &GenCfg) -> Vec<SOp> {
                     0 => cur,
                     1 => cur.saturating_sub(*rng.pick(&SIZES[..8])),
                     2 => cur + *rng.pick(&SIZES[..8]),
-                    _ => size(rng),
+                    _ => size(rng, big),
                 };
                 ops.push(SOp::Replace { slot, bytes: payload(rng, s, &mut tag) });
                 sizes[slot_i] = Some(s);
@@ -125,7 +135,7 @@ pub fn generate(rng: &mut Rng, cfg: &GenCfg) -> Vec<SOp> {
                     0 => cur.saturating_sub(*rng.pick(&SIZES[..8])),
                     1 => cur + *rng.pick(&SIZES[..8]),
                     2 => 0,
-                    _ => size(rng),
+                    _ => size(rng, big),
                 };
                 ops.push(SOp::Resize { slot, size: s });
                 sizes[slot_i] = Some(s);
